@@ -50,18 +50,24 @@ TermSignOf(S) ==
 SoSTerms == SetToSortSeq(PartialPerms, LAMBDA S, T : Weight(S) < Weight(T))
 ASSUME Len(SoSTerms) = 34
 
-MinorOf(M, S) ==
-    LET R == SetToSortSeq((1..3) \ RowsOf(S), <)
-        C == SetToSortSeq((1..3) \ ColsOf(S), <)
-    IN  CASE Len(R) = 3 -> Det(M[1], M[2], M[3])
-          [] Len(R) = 2 -> M[R[1]][C[1]] * M[R[2]][C[2]] - M[R[1]][C[2]] * M[R[2]][C[1]]
-          [] Len(R) = 1 -> M[R[1]][C[1]]
-          [] OTHER -> 1
+\* Precomputed once (constant level): sign, remaining rows and columns of each term.
+SoSTermRecs ==
+    [i \in 1..34 |->
+        LET S == SoSTerms[i]
+        IN  [sg |-> TermSignOf(S),
+             R |-> SetToSortSeq((1..3) \ RowsOf(S), <),
+             C |-> SetToSortSeq((1..3) \ ColsOf(S), <)]]
+
+MinorRC(M, R, C) ==
+    IF Len(R) = 3 THEN Det(M[1], M[2], M[3])
+    ELSE IF Len(R) = 2 THEN M[R[1]][C[1]] * M[R[2]][C[2]] - M[R[1]][C[2]] * M[R[2]][C[1]]
+    ELSE IF Len(R) = 1 THEN M[R[1]][C[1]]
+    ELSE 1
 
 RECURSIVE SoSFrom(_, _)
 SoSFrom(M, i) ==
-    LET S == SoSTerms[i]
-        v == TermSignOf(S) * MinorOf(M, S)
+    LET t == SoSTermRecs[i]
+        v == t.sg * MinorRC(M, t.R, t.C)
     IN  IF v # 0 THEN Sgn(v) ELSE SoSFrom(M, i + 1)
 
 \* a, b, c pairwise distinct and lexicographically increasing
@@ -91,19 +97,23 @@ SortSign3(a, b, c) ==
         s3 == IF LexLess(s2[3], s2[2]) THEN << -s2[1], s2[3], s2[2], s2[4]>> ELSE s2
     IN  s3
 
+\* The oracle used everywhere.  It evaluates the perturbation through TableSign,
+\* which Gen_Sign proves equal to the semantic SoSSignSorted on every degenerate
+\* sorted triple (exhaustively for N=1, on the sampled sub-lattices for N>1);
+\* RobustSignSemantic is the definition, kept for that theorem.
 RobustSign(a, b, c) ==
     IF a = b \/ b = c \/ a = c THEN 0
     ELSE LET d == Det(a, b, c)
          IN  IF d # 0 THEN Sgn(d)
              ELSE LET s == SortSign3(a, b, c)
-                  IN  s[1] * SoSSignSorted(s[2], s[3], s[4])
+                  IN  s[1] * TableSign(s[2], s[3], s[4])
 
-RobustSignTable(a, b, c) ==
+RobustSignSemantic(a, b, c) ==
     IF a = b \/ b = c \/ a = c THEN 0
     ELSE LET d == Det(a, b, c)
          IN  IF d # 0 THEN Sgn(d)
              ELSE LET s == SortSign3(a, b, c)
-                  IN  s[1] * TableSign(s[2], s[3], s[4])
+                  IN  s[1] * SoSSignSorted(s[2], s[3], s[4])
 
 OrderedCCW(a, b, c, o) ==
     LET s == (IF RobustSign(b, o, a) # -1 THEN 1 ELSE 0)
@@ -156,6 +166,19 @@ VertexCrossing(a, b, c, d) ==
     ELSE IF a = d THEN (IF b = c THEN "T" ELSE OrderedCCWRef(c, b, a))
     ELSE IF b = c THEN OrderedCCWRef(d, a, b)
     ELSE "F"
+
+\* the lattice determinant inside the vertex-crossing rule is non-zero: the answer is
+\* robust under normalisation of the points
+VertexCrossingRobust(a, b, c, d) ==
+    IF a = b \/ c = d THEN TRUE
+    ELSE IF a = c THEN (b = d \/ Det(b, a, d) # 0)
+    ELSE IF b = d THEN Det(a, b, c) # 0
+    ELSE IF a = d THEN (b = c \/ Det(b, a, c) # 0)
+    ELSE IF b = c THEN Det(a, b, d) # 0
+    ELSE TRUE
+
+\* S2 edges: endpoints equal (degenerate edge) or not parallel (in particular not antipodal)
+ValidEdge(a, b) == a = b \/ ~Parallel(a, b)
 
 AngleContainsVertex(a, b, c) == NotU(OrderedCCWRef(c, a, b))
 
